@@ -92,7 +92,7 @@ chk("C19", "exploration",
 chk("C15", "model_checking",
     "Traversal.tla is an explicit DFS machine (selector, visit-once, link budget) over all small DAGs; its predicted load sequence agrees with the real engine (drift check) and every case is run through all "
     "traversal writers of both modules, with the observed loads as oracle for content/order and all announced sizes, counts, callbacks and Dump/Write compared.",
-    "Exhaustive within: DAGs over 4 nodes, 4 selectors, visit-once on/off, 3 budgets. " + TB,
+    "Exhaustive within: DAGs over 4 nodes, 8 selectors (all, depth 1..3, 4 field paths), visit-once on/off, 3 budgets. " + TB,
     "TLA+ DFS model + TLC-enumerated DAGs replayed through the traversal writers", "DESIGN.md §3 C15")
 chk("C09", "exploration",
     "Parser.tla gives the scanner's termination/no-big-allocation argument (TLC, all token strings up to the bound) and the exact-limit matrix, which is run on every entry point; panics, hangs and allocation on "
